@@ -931,6 +931,87 @@ fn find_cycles_x(v: Var, eps: &[(u64, u64)], len: usize, budget: &mut u64, max: 
 	res
 }
 
+/// every simple cycle of length 2..=maxlen (one DFS pass; each cycle once, from its smallest edge)
+fn find_cycles_upto(v: Var, eps: &[(u64, u64)], maxlen: usize, budget: &mut u64) -> Vec<Vec<u64>> {
+	let mut adj: HashMap<u64, Vec<usize>> = HashMap::new();
+	for (e, (a, b)) in eps.iter().enumerate() {
+		adj.entry(v.vkey(0, *a)).or_default().push(2 * e);
+		adj.entry(v.vkey(1, *b)).or_default().push(2 * e + 1);
+	}
+	let node = |s: usize| if s % 2 == 0 { eps[s / 2].0 } else { eps[s / 2].1 };
+	let key = |s: usize| v.vkey(s % 2, node(s));
+	let cont = |a: usize, b: usize| -> bool {
+		a / 2 != b / 2
+			&& match v {
+				Var::Cuckatoo => node(a) != node(b),
+				Var::Cuckarood => (a / 2) % 2 != (b / 2) % 2,
+				Var::Cuckaroom => a % 2 == 1 && b % 2 == 0,
+				_ => true,
+			}
+	};
+	let mut res: Vec<Vec<u64>> = vec![];
+	let mut path: Vec<usize> = vec![];
+	#[allow(clippy::too_many_arguments)]
+	fn dfs(
+		start: usize,
+		cur: usize,
+		maxlen: usize,
+		path: &mut Vec<usize>,
+		adj: &HashMap<u64, Vec<usize>>,
+		key: &dyn Fn(usize) -> u64,
+		cont: &dyn Fn(usize, usize) -> bool,
+		res: &mut Vec<Vec<u64>>,
+		budget: &mut u64,
+	) {
+		if *budget == 0 {
+			return;
+		}
+		*budget -= 1;
+		let at_start_vertex = key(cur) == key(start);
+		for &b in adj[&key(cur)].iter() {
+			if !cont(cur, b) {
+				continue;
+			}
+			if b == start {
+				if path.len() >= 2 {
+					let mut c: Vec<u64> = path.iter().map(|s| (*s / 2) as u64).collect();
+					c.sort_unstable();
+					c.dedup();
+					if c.len() == path.len() && !res.contains(&c) {
+						res.push(c);
+					}
+				}
+				continue;
+			}
+			// back on the start edge's vertex the only simple continuation is to close
+			if at_start_vertex || path.len() >= maxlen {
+				continue;
+			}
+			let e = b / 2;
+			if e <= start / 2 || path.iter().any(|s| s / 2 == e) {
+				continue;
+			}
+			if path.iter().any(|s| key(*s) == key(b ^ 1)) {
+				continue;
+			}
+			path.push(b ^ 1);
+			dfs(start, b ^ 1, maxlen, path, adj, key, cont, res, budget);
+			path.pop();
+		}
+	}
+	for e0 in 0..eps.len() {
+		path.clear();
+		path.push(2 * e0 + 1);
+		dfs(2 * e0, 2 * e0 + 1, maxlen, &mut path, &adj, &key, &cont, &mut res, budget);
+		if v == Var::Cuckarooz {
+			path.clear();
+			path.push(2 * e0);
+			dfs(2 * e0 + 1, 2 * e0, maxlen, &mut path, &adj, &key, &cont, &mut res, budget);
+		}
+	}
+	res
+}
+
 fn verify_line(r: &Runner, ctx_ps: usize, nonces: &[u64], what: &str, stats: &mut Stats, out: &mut Out, expect_reject: bool) {
 	let res = r.verify(nonces, stats, out);
 	stats.add(r.v, &format!("{}:{}", what, res));
@@ -1153,6 +1234,67 @@ fn solve(out: &mut Out, rng: &mut Rng, thorough: bool) {
 		}
 		out.raw(&format!("#STAT solve {} proofsize=42 edge_bits=11 cycles found={}", v.name(), found));
 	}
+	// proof size 42, structural near misses: 42 edges that are TWO cycles of one graph — vertex-disjoint
+	// (lengths a + (42 - a)) or sharing a vertex (figure-eight); right count, ascending, in range,
+	// every vertex of even degree, so only the walk itself can refuse them
+	for v in VARS.iter() {
+		let want = if thorough { 12 } else { 3 };
+		let tries = if thorough { 3000 } else { 300 };
+		let mut found = 0u64;
+		let mut graphs = 0u64;
+		for _ in 0..tries {
+			if found >= want {
+				break;
+			}
+			graphs += 1;
+			let eb = 11u8;
+			let seed = rng.next();
+			let r = Runner::new(*v, eb, ps42, ps42, seed, true);
+			let mut by_len: Vec<(usize, Vec<Vec<u64>>)> = vec![];
+			let mut b = 400_000u64;
+			for c in find_cycles_upto(*v, &r.eps_all, 40, &mut b) {
+				match by_len.iter_mut().find(|(l, _)| *l == c.len()) {
+					Some((_, cs)) => cs.push(c),
+					None => by_len.push((c.len(), vec![c])),
+				}
+			}
+			for (la, ca) in by_len.iter() {
+				for (lb, cb) in by_len.iter() {
+					if la + lb != ps42 || la > lb {
+						continue;
+					}
+					for a in ca.iter() {
+						for b in cb.iter() {
+							let mut t: Vec<u64> = a.iter().chain(b.iter()).cloned().collect();
+							t.sort_unstable();
+							t.dedup();
+							if t.len() != ps42 || found >= want {
+								continue;
+							}
+							let eps = r.eps(&t);
+							let mut keys: Vec<u64> = vec![];
+							for (x, y) in eps.iter() {
+								keys.push(v.vkey(0, *x));
+								keys.push(v.vkey(1, *y));
+							}
+							keys.sort_unstable();
+							keys.dedup();
+							let what = if keys.len() == ps42 { "twocycles42" } else { "figure8-42" };
+							*shapes.entry(format!("{}:{}+{}", what, la, lb)).or_insert(0) += 1;
+							found += 1;
+							verify_line(&r, ps42, &t, what, &mut stats, out, true);
+						}
+					}
+				}
+			}
+		}
+		out.raw(&format!(
+			"#STAT solve {} proofsize=42 edge_bits=11: 42-edge sets made of two cycles found={} in {} graphs",
+			v.name(),
+			found,
+			graphs
+		));
+	}
 	let mut sh: Vec<String> = shapes.iter().map(|(k, v)| format!("{}={}", k, v)).collect();
 	sh.sort();
 	out.raw(&format!("#STAT solve shapes: {}", sh.join(" ")));
@@ -1277,6 +1419,43 @@ fn pack(out: &mut Out, rng: &mut Rng, thorough: bool) {
 			}
 		}
 	}
+	// an edge_bits byte outside 1..=63 is refused before anything else is read
+	let mut bad_eb = 0u64;
+	for (ct, ps) in [(ChainTypes::AutomatedTesting, 8usize), (ChainTypes::Mainnet, 42usize)].iter() {
+		global::set_local_chain_type(*ct);
+		for w in [0u8, 64, 65, 66, 100, 127, 128, 129, 192, 200, 254, 255].iter() {
+			for rep in 0..3 {
+				// as many bytes as the largest legal size would take, or as the byte itself claims
+				let n = match rep {
+					0 => (63 * *ps + 7) / 8,
+					1 => ((*w as usize) * *ps + 7) / 8,
+					_ => 8,
+				};
+				let rb = if rep == 2 { vec![0u8; n] } else { rng.bytes(n) };
+				let mut rbytes = vec![*w];
+				rbytes.extend_from_slice(&rb);
+				let back: Result<Proof, String> = catch(move || {
+					ser::deserialize::<Proof, _>(
+						&mut &rbytes[..],
+						ser::ProtocolVersion::local(),
+						ser::DeserializationMode::default(),
+					)
+				})
+				.map_err(|_| "panic".to_string())
+				.and_then(|r| r.map_err(|_| "err".to_string()));
+				let res = match &back {
+					Ok(q) => nat_list(&q.nonces),
+					Err(e) => e.clone(),
+				};
+				if res != "err" {
+					out.raw(&format!("#ORACLE-FAIL C05 proof with edge_bits byte {} not refused on read: {} bytes={}", w, res, hex(&rb)));
+				}
+				bad_eb += 1;
+				out.line(&format!("pow unpack {} {} {}", w, ps, hex(&rb)), &res);
+			}
+		}
+	}
+	out.raw(&format!("#STAT pack: proofs with an edge_bits byte of 0 or 64..255 offered to Proof::read={} (all must be refused)", bad_eb));
 	// malformed in-memory proofs (not producible by Proof::read): a nonce wider than edge_bits,
 	// a nonce count different from global::proofsize(). pack_nonces (and so Proof::hash,
 	// to_difficulty, write) can panic on these; the model has the same panic outcomes.
